@@ -134,6 +134,62 @@ def check_property_on_impl(ctx, c, out):
                        "harness_cmd": "echo '%s' | harness/target/release/rlharness fx" % line_new(fxgen.enc_market(qs, base))})
 
 
+def remark_stage(ctx, cases):
+    """A market whose quotes were RE-MARKED (FXRates::update on some of its own pairs) is still a market built from n-1
+    quotes: every pair asked for by name must be the path product of the latest quotes, whatever the base given at
+    construction (history op of the FX harness / Run.RunFX; oracle independent of the model)."""
+    import props.c10 as c10
+    rng = ctx.rng
+    th = ctx.tier == "thorough"
+    pool = [c for c in cases if c["expect"] == "ok" and c["n"] and 2 <= c["n"] <= 8
+            and all(isinstance(q[2], (int, float)) for q in c["qs"])]
+    rng.shuffle(pool)
+    hs = []
+    for c in pool[:(600 if th else 120 * ctx.scale)]:
+        names = sorted(set(x.lower() for q in c["qs"] for x in q[:2]))
+        base = c["base"] if rng.random() < 0.3 else rng.choice(names)       # mostly a base that is NOT the first quoted currency
+        k = rng.randint(1, min(3, len(c["qs"])))
+        upd = []
+        latest = {(q[0].lower(), q[1].lower()): q for q in c["qs"]}
+        for q in rng.sample(c["qs"], k):
+            nq = (q[0], q[1], fxgen.rate_value(rng), q[3])
+            upd.append(nq)
+            latest[(q[0].lower(), q[1].lower())] = nq
+        probes = [(a, b) for a in names for b in names][:64]
+        hs.append({"qs": c["qs"], "base": base, "probes0": [], "n": c["n"], "latest": list(latest.values()), "names": names,
+                   "ops": [{"kind": "update", "quotes": upd, "probes": probes}]})
+    encs = [c10.enc_case(h) for h in hs]
+    impl = run_harness("fx", [c10.line_hist(e) for e in encs])
+    model = coq_eval("Run.RunFX", "runFX", [[1] + e for e in encs], ctx.work, shard=max(10, len(encs) // (NCPU * 2) + 1), tag="c09r")
+    for h, e, a, b in zip(hs, encs, impl, model):
+        ctx.evaluations += 1
+        ctx.count("re-marked markets (construct with a base, update 1-3 own pairs, read every pair)")
+        ctx.nontriv(("remark", tuple(e)))
+        bad = c10.compare_case(h, a, b)
+        what = None
+        if bad:
+            what = "rust/fx/rates and the proved model disagree after the update (step %d: %s)" % bad
+        else:
+            try:
+                steps = c10.parse_hist(a, h)
+                ref = fxgen.reference_rates(h["latest"], h["names"])
+                if len(steps) >= 2 and steps[1][0] == 0:
+                    for (x, y), v in zip(h["ops"][0]["probes"], steps[1][1]):
+                        got = v["re"] if v is not None else None
+                        if got is None or not fclose(got, ref[(x, y)], rtol=1e-9):
+                            what = "after the update rate(%s,%s) = %r is not the path product %r of the latest quotes" % (x, y, got, ref[(x, y)])
+                            break
+                else:
+                    what = "an update of the market's own pairs is not accepted (classes %s)" % [s_[0] for s_ in steps]
+            except Exception as ex:      # undecodable output = disagreement with the expected layout
+                what = "undecodable history output (%s)" % ex
+        if what:
+            ctx.violation("re-marked market %s base=%s, update %s: %s" % (
+                [list(q) for q in h["qs"]], h["base"], [list(q) for q in h["ops"][0]["quotes"]], what),
+                {"case_kind": "re-marked", "encoded_hist": e, "implementation": a[:300], "model": b[:300],
+                 "harness_cmd": "echo '%s' | harness/target/release/rlharness fx" % c10.line_hist(e)[:4000]})
+
+
 def run(ctx):
     ctx.rule = ("seeded random labelled trees on 2-12 currencies (chains, stars, two-hub and Pruefer-sequence trees), random "
                 "orientation / quote order / base (incl. none) / optional common settlement date / 15% upper-case spellings / 10% "
@@ -183,6 +239,7 @@ def run(ctx):
                  "implementation": a[:400], "model": b[:400],
                  "harness_cmd": "echo '%s' | harness/target/release/rlharness fx" % line_new(e)})
         check_property_on_impl(ctx, c, a)
+    remark_stage(ctx, cases)
     for c, a in list(zip(cases, impl))[:4]:
         cls, names, vals = parse_new(a)
         ctx.sample({"call": describe(c["qs"], c["base"])[:300], "class": cls, "currencies": names,
@@ -193,6 +250,14 @@ def run(ctx):
 def replay(ctx, rp):
     build_harness()
     build_coq(["theories/Run/RunFX.vo"])
+    if "encoded_hist" in rp:
+        import props.c10 as c10
+        e = rp["encoded_hist"]
+        a = run_harness("fx", [c10.line_hist(e)])[0]
+        b = coq_eval("Run.RunFX", "runFX", [[1] + list(e)], ctx.work)[0]
+        print("replay re-marked market: implementation %s model %s" % (a[:30], b[:30]))
+        ctx.cleanup()
+        return 0 if a == b else 1
     e = rp["encoded"]
     a = run_harness("fx", [line_new(e)])[0]
     b = coq_eval("Run.RunFX", "runFX", [[0] + list(e)], ctx.work)[0]
